@@ -44,7 +44,11 @@ static int verif_unit_vsnprintf(char *buf, size_t size, const char *fmt, va_list
 		} else {
 			k = 0;
 		}
+#ifndef VERIF_VS_FRESH_BUFFER
 		__CPROVER_havoc_slice(buf, k + 1);
+#else
+		/* the unit states that the destination is always a fresh (never written, hence already arbitrary) object */
+#endif
 		if (k > 0) buf[k - 1] = (char)verif_vs_last;
 		buf[k] = 0;
 		verif_vs_nul = k;
